@@ -802,3 +802,91 @@ func init() {
 		},
 	})
 }
+
+
+// ---------------------------------------------------------------- safe/placeholder-members
+
+// genWithPlaceholder draws a type list as genLists does and puts the bare
+// placeholder among its members (1-2 times, any position): unification then
+// has to answer for an input about which nothing is known.
+func genWithPlaceholder(t *rapid.T) UIn {
+	in := genLists(false, false)(t)
+	k := rapid.IntRange(1, 2).Draw(t, "placeholders")
+	types := append([]spec.T(nil), in.Types...)
+	for i := 0; i < k; i++ {
+		at := rapid.IntRange(0, len(types)).Draw(t, "at")
+		types = append(types[:at], append([]spec.T{spec.Dynamic}, types[at:]...)...)
+	}
+	if rapid.IntRange(0, 5).Draw(t, "only") == 0 {
+		types = types[:0]
+		for i := 0; i < k; i++ {
+			types = append(types, spec.Dynamic)
+		}
+	}
+	return withVals(t, types, append(in.Shape, "bare-placeholder-member"))
+}
+
+func init() {
+	facet.Register(facet.F[UIn]{
+		Prop: "C09", Name: "safe/placeholder-members",
+		Rule:  "a type list as in the other facets with the bare placeholder as one or two of its members (or only placeholders); safe mode: no panic, every applied conversion yields a value conforming to the result, and for EVERY input with a non-nil slot - the placeholder included - GetConversion(input, result) must be offered (safe unification never relies on an unsafe conversion: a conversion from the placeholder exists only in unsafe mode); copies of one type (all placeholders) unify to it with no conversions; unsafe mode: no panic; non-trivial when safe unification succeeds with at least one concrete member",
+		Quick: 60000, Thorough: 150000,
+		Gen: genWithPlaceholder,
+		Check: func(c *facet.Ctx, in UIn) error {
+			b := build(in)
+			if ru := unify(b.types, true); ru.pan != "" {
+				return failPanic(in, ru, true)
+			}
+			r := unify(b.types, false)
+			if r.pan != "" {
+				return failPanic(in, r, false)
+			}
+			classify(c, in, r)
+			if r.ty == cty.NilType {
+				return nil
+			}
+			concrete := false
+			allDyn := true
+			for _, ty := range in.Types {
+				if ty.K != spec.KDynamic {
+					concrete = true
+					allDyn = false
+				}
+			}
+			if concrete {
+				c.NonTrivial()
+			}
+			if err := checkApply(c, in, b, r, false, false); err != nil {
+				return err
+			}
+			for i, cv := range r.convs {
+				if allDyn && cv != nil {
+					return facet.Failf("same-types-conversion", "safe unification of %v (copies of one type) returned a conversion for input %d", in.Types, i)
+				}
+				if cv == nil {
+					continue
+				}
+				var direct convert.Conversion
+				pan := ""
+				func() {
+					defer func() {
+						if p := recover(); p != nil {
+							pan = fmt.Sprint(p)
+						}
+					}()
+					direct = convert.GetConversion(b.types[i], r.ty)
+				}()
+				if pan != "" {
+					return facet.Failf("conv-panic", "GetConversion(%s, %s) panicked: %s", in.Types[i], spec.FromCty(r.ty), pan)
+				}
+				if direct == nil {
+					return facet.Failf("safe-relies-on-unsafe", "safe unification of %v -> %s returned a conversion for input %d although GetConversion(%s, %s) is not offered", in.Types, spec.FromCty(r.ty), i, in.Types[i], spec.FromCty(r.ty))
+				}
+			}
+			if allDyn && !spec.FromCty(r.ty).Equal(spec.Dynamic) {
+				return facet.Failf("same-types-result", "safe unification of %v (copies of one type) returned %s", in.Types, spec.FromCty(r.ty))
+			}
+			return nil
+		},
+	})
+}
